@@ -107,7 +107,7 @@ func checkC12(c *Ctx) {
 	r.Rule("C12/VISIT", "both stores' VisitMailboxes call the visitor with no lock held and pass it a freshly allocated slice")
 	scan := p.Method("pkg/storage", "RetentionScanner", "DoScan")
 	start := p.Method("pkg/storage", "RetentionScanner", "Start")
-	fPeriod := p.Field("pkg/storage", "RetentionScanner", "retentionPeriod")
+	fPeriod := retentionPeriodField(p)
 	rmObj := p.MethodObj("pkg/storage", "Store", "RemoveMessage")
 	if scan == nil || start == nil || fPeriod == nil || rmObj == nil {
 		return
@@ -743,4 +743,95 @@ func (c *Ctx) c12Complete(scan *ssa.Function, rmObj *types.Func) {
 		})
 	}
 	r.Floor("C12/COMPLETE", "RemoveMessage sites in the scan", n, 1)
+}
+
+
+// retentionPeriodField finds the scanner's retention period by what it is used for: the
+// time.Duration field of RetentionScanner whose value — negated, scaled or as it is — becomes
+// the argument of a time.Time.Add or is compared with a time.Since/Sub result (the cutoff), as
+// opposed to the duration the scan sleeps for. By name when that does not single one out.
+func retentionPeriodField(p *eng.Prog) *types.Var {
+	T := p.Named("pkg/storage", "RetentionScanner")
+	if T == nil {
+		return nil
+	}
+	st, ok := T.Underlying().(*types.Struct)
+	if !ok {
+		return nil
+	}
+	isDur := func(t types.Type) bool {
+		n, ok := t.(*types.Named)
+		return ok && n.Obj().Pkg() != nil && n.Obj().Pkg().Path() == "time" && n.Obj().Name() == "Duration"
+	}
+	var cands []*types.Var
+	for i := 0; i < st.NumFields(); i++ {
+		f := st.Field(i)
+		if !isDur(f.Type()) {
+			continue
+		}
+		cut := false
+		for _, fn := range pkgFuncs(p, "pkg/storage") {
+			eng.EachInstr(fn, func(in ssa.Instruction) {
+				u, ok := in.(*ssa.UnOp)
+				if !ok || u.Op != token.MUL || !eng.SameField(eng.LoadedField(u), f) {
+					return
+				}
+				seen := map[ssa.Value]bool{}
+				work := []ssa.Value{u}
+				for len(work) > 0 {
+					v := work[len(work)-1]
+					work = work[:len(work)-1]
+					if seen[v] || v.Referrers() == nil {
+						continue
+					}
+					seen[v] = true
+					for _, ref := range *v.Referrers() {
+						switch x := ref.(type) {
+						case *ssa.BinOp:
+							switch x.Op {
+							case token.MUL, token.SUB, token.ADD:
+								work = append(work, x)
+							case token.GTR, token.LSS, token.GEQ, token.LEQ:
+								other := x.X
+								if other == v {
+									other = x.Y
+								}
+								if oc, isCall := eng.StripConv(other).(*ssa.Call); isCall {
+									switch eng.CalleeName(oc.Common()) {
+									case "time.Since", "(time.Time).Sub":
+										cut = true
+									}
+								}
+							}
+						case *ssa.UnOp:
+							if x.Op == token.SUB {
+								work = append(work, x)
+							}
+						case *ssa.Convert:
+							work = append(work, x)
+						case *ssa.Call:
+							if eng.CalleeName(x.Common()) == "(time.Time).Add" {
+								cut = true
+							}
+							// passed down to a helper of the package (cutoffFor(period))
+							if g := eng.StaticCallee(x.Common()); g != nil && eng.FuncPkgPath(g) == eng.Mod+"/pkg/storage" {
+								for i, a := range x.Call.Args {
+									if a == v && i < len(g.Params) {
+										work = append(work, g.Params[i])
+									}
+								}
+							}
+						}
+					}
+				}
+			})
+		}
+		if cut {
+			cands = append(cands, f)
+		}
+	}
+	if len(cands) == 1 {
+		return cands[0]
+	}
+	return p.Field("pkg/storage", "RetentionScanner", "retentionPeriod")
 }
